@@ -181,6 +181,22 @@ def witnesses():
     w.append(("reg-sibling-keyref-depth", mk([ic(1, "k", 0, "l0", ["."]), ic(1, "r", 1, "l1", ["."], 0)],
                                              C(0, {}, [C(2, {}, [C(1, {}, [L(0, "a")])]), C(1, {}, [L(0, "b"), L(1, "a")])]),
                                              lt="sss"), "always", "ig", "pool"))
+    # namespace-qualified attribute fields (global attribute declarations of an imported namespace, ref=)
+    qd = mk([ic(0, "k", 0, "c1", ["@t:g0"])], C(0, {}, [C(1, {3: "1"}), C(1, {3: "01"}), C(1, {3: "2"})]), at="sidiss")
+    w.append(("reg-qattr-key-dup", qd, "always", "ig", "pool"))
+    w.append(("reg-qattr-key-dup", qd, "always", "sg", "loc"))
+    w.append(("reg-qattr-keyref", mk([ic(0, "u", 0, "c1", ["@t:g0"]), ic(0, "r", 1, "c2", ["@t:g1"], 0)],
+                                     C(0, {}, [C(1, {3: "1"}), C(2, {4: "+1"}), C(2, {4: "01"})]), at="sidids"),
+              "always", "ig", "pool"))
+    # declared xs:anySimpleType, the instance says xsi:type: the ACTUAL type decides (with and without a PSVIHandler)
+    ax = mk([ic(0, "u", 0, "c1", ["l0"])], C(0, {}, [C(1, {}, [["l", 0, {}, "1", "i"]]), C(1, {}, [["l", 0, {}, "+1", "i"]])]), lt="yss")
+    ax["lplain"] = [True, False, False]
+    ak = mk([ic(0, "k", 0, "c1", ["l0"]), ic(0, "r", 1, "c2", ["l1"], 0)],
+            C(0, {}, [C(1, {}, [["l", 0, {}, "007", "i"]]), C(2, {}, [L(1, "7")])]), lt="yis")
+    ak["lplain"] = [True, False, False]
+    for sc, ld in (("ig", "pool"), ("ig+p", "pool"), ("sg", "loc"), ("sg+p", "ext")):
+        w.append(("reg-anytype-xsitype-dup", ax, "always", sc, ld))
+        w.append(("reg-anytype-key-int-ref", ak, "always", sc, ld))
     w.append(("reg-integer-key-int-ref", mk([ic(0, "k", 0, "c1/l0", ["."]), ic(0, "r", 1, "c2/l1", ["."], 0)],
                                             C(0, {}, [C(1, {}, [L(0, "1"), L(0, "2")]), C(2, {}, [L(1, "+1"), L(1, "02")])]),
                                             lt="ins"), "always", "ig", "pool"))
@@ -216,12 +232,16 @@ def gen_cases(ctx):
             kind += "+derived"
         if any(len(n) > 4 and n[4] for n, _, _ in walk(case["tree"])):
             kind += "+xsitype"
+        if "y" in case["ltypes"]:
+            kind += "+anytype"
+        if any("@t:g" in f for c in case["ics"] for f in c["fields"]):
+            kind += "+qattr"
         out.append((kind, case, "always", "ig", "pool"))
         # the same pair under another configuration (SGXMLScanner is only driven through schema locations)
         scheme = rng.choice(["always", "auto", "auto"])
-        scanner = rng.choice(["ig", "sg"])
+        scanner = rng.choice(["ig", "sg", "ig+p", "sg+p"])      # +p: a no-op PSVIHandler is installed
         # Val_Auto only switches validation on when the instance points to its schema: no Val_Auto + loadGrammar pairs
-        load = rng.choice(["loc", "ext"]) if (scanner == "sg" or scheme == "auto") else rng.choice(["pool", "loc", "ext"])
+        load = rng.choice(["loc", "ext"]) if (scanner.startswith("sg") or scheme == "auto") else rng.choice(["pool", "loc", "ext"])
         if (scheme, scanner, load) != ("always", "ig", "pool"):
             out.append((kind + "/cfg", case, scheme, scanner, load))
     return out
